@@ -220,6 +220,7 @@ def next_utf8_rule(run, ctx):
         n += 1
         inb = any(ev.kind == "arm" and ev.b.startswith("Some(") for ev in p.events) or \
             any(ev.kind == "letcond" and ev.c and ev.a.startswith("Some(") and ".get(%s)" % I in (ev.b or "") for ev in p.events) or \
+            any(ev.kind == "let" and ev.c is True and (ev.a or "").startswith("Some(") and ".get(%s)" % I in (ev.b or "") for ev in p.events) or \
             any(ev.kind == "cond" and ev.b and H.pat_match("(%s < len(%s))" % (I, TEXT), ev.a) for ev in p.events)
         # the result node
         node = p.valnode
